@@ -36,3 +36,6 @@ func (c *Causal) VerifCells07() []VerifCell {
 
 // VerifNumCells07 is the capacity chosen by Init.
 func (c *Causal) VerifNumCells07() int { return len(c.cells) }
+
+// VerifEnc07 reports whether the encoder cache holds cross-attention input and the position it belongs to.
+func (c *EncoderCache) VerifEnc07() (bool, int32) { return c.encoderCached, c.encoderPos }
